@@ -50,6 +50,9 @@ def allLoops (counted : Node → Bool) : Node → List Node
   | .case_ _ ss => allLoopsL counted ss
   | .default_ ss => allLoopsL counted ss
   | .funcDef _ b => allLoops counted b
+  | .declList ds => allLoopsL counted ds       -- (no statement can sit in these three; kept so that
+  | .exprList es => allLoopsL counted es       --  the traversal is total over every list of children)
+  | .paramList ps => allLoopsL counted ps
   | _ => []
 def allLoopsL (counted : Node → Bool) : List Node → List Node
   | [] => []
